@@ -452,6 +452,15 @@ theorem diff_fuel_suffices (t1 : TreeShaped T1 dep) (t2 : TreeShaped T2 dep) (hc
   refine ⟨?_, diffItems_eq t1 t2 hc h1 h2⟩
   rw [diffLoop_walk t1 t2 hc h1 h2 _ (by omega), diffItems_eq t1 t2 hc h1 h2]
 
+/-- **diff_levels_are_generations.** The bars filed under level `k` of the output (`res.Levels[k]`) are exactly the
+    k-th generation of the walk, in order: the statements about `itemLevel k` below are statements about the levels
+    the client receives. -/
+theorem diff_levels_are_generations (t1 : TreeShaped T1 dep) (t2 : TreeShaped T2 dep) (hc : Compatible T1 T2)
+    (h1 : (T1.map rkey).Nodup) (h2 : (T2.map rkey).Nodup) (k : Nat) (hk : k ≤ maxDep (alignedL T1 T2) dep) :
+    (diffItems T1 T2).filter (fun q => q.level == k) = itemLevel (kidsL T1 T2) (kidsR T1 T2) k [rootOf T1 T2] := by
+  rw [diffItems_eq t1 t2 hc h1 h2]
+  exact walk_filter_level h1 h2 _ k (by omega)
+
 /-- **diff_sides_conserve.** If both input trees conserve weight (and are parent-closed, non-negative, agree on
     parents) then every bar of the diff conserves weight on BOTH sides over its child bars: left total = left self + the
     left totals of its children, right likewise — also for the zero bars standing for nodes a side lacks. -/
